@@ -809,4 +809,9 @@ def run(ctx, prog):
                              'divisor = %s%s' % (flow.render(d)[:120], '' if ok6 else ' — can be 0 for a client-built filter: "attempt to divide by zero" panics inside request validation'))
                     k6 += 1
     ctx.floor('C15.R6', 'divisions by a non-constant divisor in the validation modules', n6, 2, 'average over OR operands, 50 / inner selectivity')
+    # ------------------------------------------------------------------ R7 = C03.R7 / C14.R5: a batch answer of "failed" means nothing of it was applied
+    ctx.rule('C15.R7', 'per-item accounting of the bulk load (= C14.R5, the shared analysis of C03.R7): TieredEngine::bulk_load_cold_tier has no Err return reachable after a '
+                       'cold-tier insert of the same request succeeded — its RPC caller answers an Err with "the whole batch failed", so an early exit after durable items '
+                       'reports items as failed that changed the collection (live and after restart), and never attempts the valid items behind the refused one')
+    C03.no_failure_after_canonical(ctx, prog, 'C15.R7', ('TieredEngine::bulk_load_cold_tier',))
     ctx.stat('functions_analysed', len(set(i['key'].split(' | ')[1] for i in ctx.instances)))
